@@ -408,8 +408,8 @@ PROPS = {
     },
     "C18": {
         "level": "proof",
-        "claim": "StatusCode: every numeric constructor yields Ok(c) iff 100 <= v <= 599 with c == v (complete), is_successful iff 200..=299, FromStr accepts exactly decimal strings of values in 100..=599; admission predicates for ALL header maps (Verus unit session): a request is admitted iff :method CONNECT, :scheme https, :protocol webtransport, :authority and :path present, each refusal names the documented cause, the request keeps the whole map; a response is accepted iff :status is present and a valid status, depending on nothing else. Driver (Verus units driver, endpoint): a request that is not a WebTransport extended CONNECT is refused ON ITS OWN STREAM (H3_MESSAGE_ERROR for a malformed request - a mandatory pseudo-header missing, RFC 9114 4.1.2 -, H3_MESSAGE_ERROR or H3_REQUEST_REJECTED for a well-formed request this endpoint does not serve: the only codes the assumed stop accepts for that request) and the connection goes on (Ok), admitted requests are handed to the application queue; on the client a response counts as acceptance only with a valid 2xx status (see C02). The canned answers are 200 (ok) and 403 / 404 / 429 (forbidden, not_found, too_many_requests): a refusal is never a 2xx (unit session).",
-        "note": "FromStr bounded to strings <= 5 bytes (all u16 decimals; u16::from_str trusted beyond). Known finding: StatusCode::default() == 0. Not under contract: SessionRequest::insert / Headers::insert (HashMap<String,String> + iterator closure: reserved-header immutability is NOT decided), SessionRequest::new (url crate), server refusal codes and connect()'s reaction (async driver).",
+        "claim": "StatusCode: every numeric constructor yields Ok(c) iff 100 <= v <= 599 with c == v (complete), is_successful iff 200..=299, FromStr accepts exactly decimal strings of values in 100..=599; admission predicates for ALL header maps (Verus unit session): a request is admitted iff :method CONNECT, :scheme https, :protocol webtransport, :authority and :path present, each refusal names the documented cause, the request keeps the whole map; a response is accepted iff :status is present and a valid status, depending on nothing else. Driver (Verus units driver, endpoint): a request that is not a WebTransport extended CONNECT is refused ON ITS OWN STREAM (H3_MESSAGE_ERROR for a malformed request - a mandatory pseudo-header missing, RFC 9114 4.1.2 -, H3_MESSAGE_ERROR or H3_REQUEST_REJECTED for a well-formed request this endpoint does not serve: the only codes the assumed stop accepts for that request) and the connection goes on (Ok), admitted requests are handed to the application queue; on the client a response counts as acceptance only with a valid 2xx status (see C02). The canned answers are 200 (ok) and 403 / 404 / 429 (forbidden, not_found, too_many_requests): a refusal is never a 2xx (unit session). Reserved fields: SessionRequest::insert refuses exactly the five reserved names and stores any other field under EXACTLY its own name with its own value (Headers::insert: nothing else changes), so no call can alter a reserved pseudo-header (unit session).",
+        "note": "FromStr bounded to strings <= 5 bytes (all u16 decimals; u16::from_str trusted beyond). Known finding: StatusCode::default() == 0. Not under contract: SessionRequest::new (url crate). Headers::insert / SessionRequest::insert are verified over an assumed string map (HashMap<String,String> with a ghost view, ToString as an assumed trait, membership in RESERVED_HEADERS as an assumed predicate whose list Kani proves).",
         "kani": STATUS_KANI + [K("p_reserved_headers_list", "RESERVED_HEADERS is exactly the five WebTransport pseudo-headers", [P + "session.rs::SessionRequest::RESERVED_HEADERS"])],
         "verus": [V("session"), V("driver"), V("endpoint")],
         "not_decided": ["SessionRequest::new / url crate", "driver reaction to refused requests"],
@@ -480,7 +480,7 @@ def setup():
 
 NOT_APPLICABLE = {
     "C07": "liveness/independence over task interleavings (stalled streams never block others): whole-history concurrency property, outside contract-based deductive verification (no Kani threads, Verus would need permission types on tokio internals).",
-    "C08": "exactly-once delivery over mpsc queues, cancellation and multi-task accept: whole-history concurrency property, no per-call contract expresses it.",
+    "C08": "exactly-once delivery over mpsc queues, cancellation and multi-task accept: whole-history concurrency property, no per-call contract expresses it. The per-call piece is under contract in C17 (unit driver: each accept call returns the FIRST queued stream of its session, skipping none, inventing none; foreign streams are refused).",
 }
 
 
